@@ -117,4 +117,78 @@ def poolSitesOutsideListeners : List (String × Nat × Nat) := [("NewFromReader"
 def emit : List Path := [
     { conds := [], effects := ["$recv.RLock()", "defer $recv.RUnlock()", "loop $recv.<[]func> { [(each($recv.<[]func>)(*$0) != nil)] |- [each($recv.<[]func>)(*$0)] => return each($recv.<[]func>)(*$0) | [(each($recv.<[]func>)(*$0) == nil)] |- [each($recv.<[]func>)(*$0)] => next }"], ret := "nil" }]
 
+/-- (event, verdict) for every listener that takes an event.MessageMetadata: `detached` = before the value is wrapped for Lua its From is replaced by a pointer to a copy and its To by a fresh slice of pointers to copies (inline or in a helper called with its address); `shared` = neither is touched; else `unknown:…` -/
+def afterHandlersDetach : List (String × String) := [("AfterMessageDeleted", "detached"), ("AfterMessageStored", "detached")]
+
+/-- an __index / __newindex function of a userdata: the Go type its first argument must hold (anything else ends in
+    ArgError iff selfChecked), and per Lua key (`*` = the default branch) the extra conditions and what is done; `#` = the Go object -/
+structure FieldTable where
+  obj : String
+  kind : String
+  selfChecked : Bool
+  rows : List (String × List String × String)
+  deriving DecidableEq, Repr
+
+/-- the index / newindex functions of the message_metadata, address, inbucket.after and inbucket.before userdata -/
+def fieldTables : List FieldTable := [
+  { obj := "*InbucketAfterFuncs", kind := "index", selfChecked := true,
+    rows := [
+      ("*", [], "$0.Push(gopher-lua.LNil) => 1"),
+      ("message_deleted", [], "$0.Push(fn->gopher-lua.LValue(#.MessageDeleted)) => 1"),
+      ("message_stored", [], "$0.Push(fn->gopher-lua.LValue(#.MessageStored)) => 1")] },
+  { obj := "*InbucketAfterFuncs", kind := "newindex", selfChecked := true,
+    rows := [
+      ("*", [], "$0.RaiseError(\"invalid inbucket.after index %q\", $0.CheckString(2)) => 0"),
+      ("message_deleted", [], "$0.CheckFunction(3); #.MessageDeleted := $0.CheckFunction(3) => 0"),
+      ("message_stored", [], "$0.CheckFunction(3); #.MessageStored := $0.CheckFunction(3) => 0")] },
+  { obj := "*InbucketBeforeFuncs", kind := "index", selfChecked := true,
+    rows := [
+      ("*", [], "$0.Push(gopher-lua.LNil) => 1"),
+      ("mail_from_accepted", [], "$0.Push(fn->gopher-lua.LValue(#.MailFromAccepted)) => 1"),
+      ("message_stored", [], "$0.Push(fn->gopher-lua.LValue(#.MessageStored)) => 1"),
+      ("rcpt_to_accepted", [], "$0.Push(fn->gopher-lua.LValue(#.RcptToAccepted)) => 1")] },
+  { obj := "*InbucketBeforeFuncs", kind := "newindex", selfChecked := true,
+    rows := [
+      ("*", [], "$0.RaiseError(\"invalid inbucket.before index %q\", $0.CheckString(2)) => 0"),
+      ("mail_from_accepted", [], "$0.CheckFunction(3); #.MailFromAccepted := $0.CheckFunction(3) => 0"),
+      ("message_stored", [], "$0.CheckFunction(3); #.MessageStored := $0.CheckFunction(3) => 0"),
+      ("rcpt_to_accepted", [], "$0.CheckFunction(3); #.RcptToAccepted := $0.CheckFunction(3) => 0")] },
+  { obj := "*event.MessageMetadata", kind := "index", selfChecked := true,
+    rows := [
+      ("*", [], "$0.Push(gopher-lua.LNil) => 1"),
+      ("date", [], "$0.Push(gopher-lua.LNumber(#.Date.Unix())) => 1"),
+      ("from", [], "$0.Push(fn->*gopher-lua.LUserData($0, #.From)) => 1"),
+      ("id", [], "$0.Push(gopher-lua.LString(#.ID)) => 1"),
+      ("mailbox", [], "$0.Push(gopher-lua.LString(#.Mailbox)) => 1"),
+      ("size", [], "$0.Push(gopher-lua.LNumber(#.Size)) => 1"),
+      ("subject", [], "$0.Push(gopher-lua.LString(#.Subject)) => 1"),
+      ("to", [], "loop #.To { [] |- [] => next }; $0.Push(&gopher-lua.LTable{}) => 1")] },
+  { obj := "*event.MessageMetadata", kind := "newindex", selfChecked := true,
+    rows := [
+      ("*", [], "$0.RaiseError(\"invalid index %q\", $0.CheckString(2)) => 0"),
+      ("date", [], "$0.CheckInt64(3); #.Date := time.Unix($0.CheckInt64(3), 0) => 0"),
+      ("from", ["!is($0.CheckUserData(3).Value, *mail.Address)"], "$0.CheckUserData(3); $0.ArgError(1, (\"address\" + \" expected\")); #.From := nil => 0"),
+      ("from", ["is($0.CheckUserData(3).Value, *mail.Address)"], "$0.CheckUserData(3); #.From := $0.CheckUserData(3).Value.(*mail.Address) => 0"),
+      ("id", [], "$0.CheckString(3); #.ID := $0.CheckString(3) => 0"),
+      ("mailbox", [], "$0.CheckString(3); #.Mailbox := $0.CheckString(3) => 0"),
+      ("size", [], "$0.CheckInt64(3); #.Size := $0.CheckInt64(3) => 0"),
+      ("subject", [], "$0.CheckString(3); #.Subject := $0.CheckString(3) => 0"),
+      ("to", [], "$0.CheckTable(3); #.To := make([]*mail.Address, 0, 16) => 0")] },
+  { obj := "*mail.Address", kind := "index", selfChecked := true,
+    rows := [
+      ("*", [], "$0.Push(gopher-lua.LNil) => 1"),
+      ("address", [], "$0.Push(gopher-lua.LString(#.Address)) => 1"),
+      ("name", [], "$0.Push(gopher-lua.LString(#.Name)) => 1")] },
+  { obj := "*mail.Address", kind := "newindex", selfChecked := true,
+    rows := [
+      ("*", [], "$0.RaiseError(\"invalid index %q\", $0.CheckString(2)) => 0"),
+      ("address", [], "$0.CheckString(3); #.Address := $0.CheckString(3) => 0"),
+      ("name", [], "$0.CheckString(3); #.Name := $0.CheckString(3) => 0")] }]
+
+/-- what the ForEach closure of message_metadata's `to` assignment does with the table entries -/
+def toAssignForEach : String := "skip-non-addresses"
+
+/-- message_metadata.new: the function(s) of the package that build an event.MessageMetadata literal -/
+def newMetaCtor : String := "[] |- [$0.Push(fn->*gopher-lua.LUserData($0, &event.MessageMetadata{}))] => 1"
+
 end Ibx.Gen.Lua
